@@ -25,6 +25,8 @@ fn fmt_name(f: Fmt) -> &'static str {
         Fmt::Json => "json",
         Fmt::Ron => "ron",
         Fmt::MsgPack => "msgpack",
+        Fmt::JsonReader => "json-reader",
+        Fmt::JsonValue => "json-value",
     }
 }
 fn pos_name(p: Pos) -> &'static str {
@@ -42,6 +44,8 @@ fn fmt_of(s: &str) -> Option<Fmt> {
         "json" => Fmt::Json,
         "ron" => Fmt::Ron,
         "msgpack" => Fmt::MsgPack,
+        "json-reader" => Fmt::JsonReader,
+        "json-value" => Fmt::JsonValue,
         _ => return None,
     })
 }
@@ -159,6 +163,16 @@ pub fn documents<I: Inputs>(vt: &'static Vt<I>, ctx: &Ctx) -> Vec<Doc> {
         docs.push(Doc { fmt: Fmt::Ron, pos: Pos::Top, bytes: t.as_bytes().to_vec() });
         docs.push(Doc { fmt: Fmt::Ron, pos: Pos::Top, bytes: format!("{name}({t})").into_bytes() });
     }
+    // the same JSON bytes through the two other decoders (nothing borrowable / owned `Value` tree): every
+    // top-position document, a rotating third of the others
+    let mut extra = vec![];
+    for (i, d) in docs.iter().enumerate() {
+        if d.fmt == Fmt::Json && (d.pos == Pos::Top || i % 3 == 0) {
+            extra.push(Doc { fmt: Fmt::JsonReader, pos: d.pos, bytes: d.bytes.clone() });
+            extra.push(Doc { fmt: Fmt::JsonValue, pos: d.pos, bytes: d.bytes.clone() });
+        }
+    }
+    docs.extend(extra);
     docs
 }
 
@@ -199,6 +213,61 @@ pub fn check<I: Inputs>(vt: &'static Vt<I>, ctx: &Ctx) -> DeclReport {
         )
     };
     drive(ctx, &info, &mut rep, docs, strat, ctx.n_random(1500, 100_000), &eval);
+
+    // serde's in-memory value deserializers forward every hint to `deserialize_any`; whether such a source is
+    // accepted at all is the deserializer's business, but whatever it yields is what the constructor returns
+    // for the carried value - a second visitor path must not skip the guards
+    if let (Some(dv), true) = (vt.de_value, ctx.case.is_none() || ctx.case.as_ref().is_some_and(|c| c.get("value_deserializer_kind").is_some())) {
+        let vals: Vec<I> = match &ctx.case {
+            Some(c) => c.get("value").and_then(I::from_json).into_iter().collect(),
+            None => seed_values(vt, ctx, if ctx.quick() { 60 } else { 400 }),
+        };
+        let mut wts = Default::default();
+        for v in &vals {
+            for kind in 0..crate::glue::DE_VALUE_KINDS {
+                if ctx.case.as_ref().is_some_and(|c| c["value_deserializer_kind"].as_u64() != Some(kind as u64)) {
+                    continue;
+                }
+                let Ok(Some(got)) = no_panic(|| dv(v.clone(), kind)) else { continue };
+                rep.evaluations += 1;
+                let expected = no_panic(|| (vt.ctor)(v.clone()));
+                let class = match (&got, &expected) {
+                    (Ok(_), _) => "value-deserializer-accepts",
+                    (Err(_), Ok(Err(_))) => "value-deserializer-rejects-invalid",
+                    _ => "value-deserializer-rejects",
+                };
+                rep.class(class);
+                if matches!(expected, Ok(Err(_))) {
+                    rep.nontrivial += 1;
+                }
+                rep.sample(class, json!({"case": {"value": v.to_json(), "value_deserializer_kind": kind}}));
+                if let (Ok(x), Ok(exp)) = (&got, &expected) {
+                    let bad = match exp {
+                        Ok(e) if e.same(x) => None,
+                        Ok(e) => Some(("value-deserializer-yields-unsanitized-value", format!("Ok({})", e.to_json()))),
+                        Err(e) => Some(("value-deserializer-accepts-invalid-value", format!("Err({})", e.show()))),
+                    };
+                    if let Some((w, e)) = bad {
+                        rep.viol(
+                            Viol {
+                                prop: "C04".into(),
+                                decl_id: vt.id.into(),
+                                type_name: vt.type_name.into(),
+                                decl: vt.decl.into(),
+                                signature: format!("C04|{}|serde-value-deserializer|{w}|sans={}|vals={}", I::NAME, san_names(m), val_names(m)),
+                                case: json!({"value": v.to_json(), "value_deserializer_kind": kind}),
+                                expected: e,
+                                actual: format!("Ok({})", x.to_json()),
+                                shrunk: "enumeration-minimum".into(),
+                            },
+                            v.weight(),
+                            &mut wts,
+                        );
+                    }
+                }
+            }
+        }
+    }
     rep
 }
 
